@@ -19,6 +19,7 @@
 
 #include <cerrno>
 #include <csetjmp>
+#include <sys/mman.h>
 #include <fcntl.h>
 #include <sys/stat.h>
 
@@ -164,11 +165,11 @@ void h_assert_fail(const char *, const char *, unsigned, const char *) { if (g_t
 // ---------------- plan ----------------
 enum Kind {
     K_KEYGEN = 0, K_BOX_KEYPAIR, K_BOXX_KEYPAIR, K_KX_KEYPAIR, K_SIGN_KEYPAIR, K_INIT_PUSH, K_SEAL, K_SEALX, K_PWHASH_STR, K_SCRYPT_STR,
-    K_POINT_ED, K_POINT_RIS, K_SCALAR_ED, K_SCALAR_RIS, K_UNIFORM, K_RANDOM, K_BUF, K_DETERMINISTIC, K_STIR, K_CLOSE, K_LEGACY, K_NKINDS
+    K_POINT_ED, K_POINT_RIS, K_SCALAR_ED, K_SCALAR_RIS, K_UNIFORM, K_RANDOM, K_BUF, K_DETERMINISTIC, K_STIR, K_CLOSE, K_LEGACY, K_GIANT_LEGACY, K_NKINDS
 };
 const char *kind_name[K_NKINDS] = {"keygen", "box_keypair", "box_xchacha_keypair", "kx_keypair", "sign_keypair", "secretstream_init_push", "box_seal",
                                    "box_xchacha_seal", "pwhash_str", "scrypt_str", "ed25519_random", "ristretto255_random", "ed25519_scalar_random",
-                                   "ristretto255_scalar_random", "uniform", "random", "buf", "buf_deterministic", "stir", "close", "randombytes_legacy"};
+                                   "ristretto255_scalar_random", "uniform", "random", "buf", "buf_deterministic", "stir", "close", "randombytes_legacy", "randombytes_legacy_4GiB"};
 
 struct Op {
     int kind = K_KEYGEN;
@@ -353,6 +354,21 @@ struct Exec {
             out.assign(op.arg, prefill);
             randombytes(out.data(), op.arg);
             break;
+        case K_GIANT_LEGACY: {
+            // more than 2^32 bytes through the legacy entry point, into a lazily mapped buffer (thorough tier, scripted source)
+            unsigned long long len = (1ULL << 32) + 16 + op.arg % 4096;
+            unsigned char *big = (unsigned char *) mmap(nullptr, (size_t) len, PROT_READ | PROT_WRITE, MAP_PRIVATE | MAP_ANONYMOUS | MAP_NORESERVE, -1, 0);
+            if (big == MAP_FAILED) { res.count("probe.giant_request_skipped"); break; }
+            big[len - 1] = prefill; big[0] = prefill;
+            size_t before = g_src.pos;
+            randombytes(big, len);
+            size_t asked = g_src.pos - before;
+            out.assign(big, big + 16); out.insert(out.end(), big + len - 16, big + len);
+            if (asked < len) o.invalid = "secret-not-covered|randombytes_legacy_4GiB|randombytes() of " + std::to_string(len) + " bytes asked the installed source for only " + std::to_string(asked);
+            munmap(big, (size_t) len);
+            res.count("probe.giant_request_checked");
+            break;
+        }
         case K_DETERMINISTIC: {
             unsigned char seed[32];
             Rng r(mix64(plan.content_seed, op.arg2));
@@ -720,6 +736,7 @@ struct C18 {
         bool kernel = pk.at("source").str() != "scripted";
         p.kfault_pct = kernel ? (unsigned) (f.chance(1, 3) ? 0 : f.range(5, 50)) : 0;
         size_t nops = (size_t) r.range(1, thorough ? 20 : 12);
+
         for (size_t i = 0; i < nops; i++) {
             Op op;
             unsigned c = (unsigned) r.below(1000);
@@ -770,6 +787,10 @@ struct C18 {
                 else r.fill(op.seg.data(), plain);
             }
             p.ops.push_back(op);
+        }
+        if (thorough && !kernel && run % 100 == 0 && (run % 10000000000ULL) / 100 < 40 && pk.at("source").str() == "scripted") {
+            // first run of the first batches of each binary; LAST in the plan, so that no later operation sits 4 GiB into the stream
+            Op g; g.kind = K_GIANT_LEGACY; g.arg = r.u32(); p.ops.push_back(g);
         }
         p.flip_op = (int) f.below(nops);
         // prefer an op that has a secret
